@@ -457,6 +457,121 @@ def deactivation_inside_a_call_is_undone_at_its_exit():
     return left is not None
 
 
+# ---- C01: the rebuilt function object ---------------------------------------------------------
+def method_name_bound_to_none_in_module():
+    class A:
+        def len(self, xs):
+            n = len(xs)
+            return n
+
+    a = A()
+    g = A.len.__globals__
+    had = "len" in g
+    try:
+        with probing("A.len > n", env={"A": A}) as prb:
+            out = a.len([1, 2, 3])
+        bad = out != 3
+    except TypeError as e:
+        print("under the probe:", type(e).__name__, e)
+        bad = True
+    leaked = ("len" in g) and not had
+    print("module global 'len' created:", leaked)
+    g.pop("len", None) if leaked else None
+    return bad or leaked
+
+
+def defaults_evaluated_again():
+    import itertools
+    from ptera import tooled
+
+    c = itertools.count()
+
+    def f(x=next(c), *, k=next(c)):
+        return x, k
+
+    plain = f()
+    t = tooled(f)()
+    print("plain", plain, "tooled", t, "counter now", next(c))
+    return t != plain
+
+
+def tooled_closure_snapshots_cells():
+    from ptera import tooled
+
+    def make():
+        n = 0
+
+        def inc():
+            nonlocal n
+            n += 1
+
+        def get():
+            v = n
+            return v
+
+        return inc, get
+
+    inc, get = make()
+    tget = tooled(get)
+    inc()
+    print("original sees", get(), "tooled sees", tget())
+    return get() != tget()
+
+
+# ---- C02 / C06: nested scopes ------------------------------------------------------------------
+def walrus_in_lambda_spurious_event():
+    def f1(xs):
+        g = lambda: (v := 10)  # noqa
+        v = 1
+        g()
+        return v
+
+    with probing("f1 > v") as prb:
+        ev = prb.accum()
+        r = f1([1])
+    print("returned", r, "events", ev)
+    return ev != [{"v": 1}]
+
+
+def nested_coroutine_value_after_exit():
+    def outer3(x):
+        async def inner(y):
+            return y * 2
+
+        return inner(x)
+
+    got = []
+    with probing("outer3 > #value", "outer3 > #exit", raw=True) as prb:
+        prb.subscribe(lambda d: got.extend(d.keys()))
+        co = outer3(5)
+        try:
+            co.send(None)
+        except StopIteration:
+            pass
+    print("meta events:", got)
+    return got != ["#value", "#exit"]
+
+
+# ---- C16 ------------------------------------------------------------------------------------
+def name_error_info_after_deactivation():
+    def f(a):
+        y: "@Param"
+        return a + y
+
+    try:
+        with probing("f > y"):
+            f(1)
+    except NameError as e:
+        err = e
+    try:
+        info = err.info()
+    except Exception as e:  # noqa
+        print("info() after the with-block:", type(e).__name__, e)
+        return True
+    print("info() after the with-block:", info["annotation"], info["provenance"])
+    return info["provenance"] != "body"
+
+
 if __name__ == "__main__":
     case = sys.argv[1]
     bad = globals()[case]()
